@@ -8,8 +8,8 @@ Definition validate_mode (path_exists : bool) (mode0 : option string) : vres :=
 Definition after_validate (mode : string) (skip : bool) : wact :=
   (if skip then WSkip else (if (String.eqb mode "append"%string) then WNotImpl else WCopy)).
 Definition path_mode (f : fmt) (arg_mode self_mode : option string) : option string :=
-  match f with FCsv => arg_mode | FJson => arg_mode | FParquet => arg_mode end.
-Definition add_if_absent : bool := true.
-Definition byname_source : byname_src := ByCache.
+  match f with FCsv => (py_or_opt arg_mode self_mode) | FJson => (py_or_opt arg_mode self_mode) | FParquet => (py_or_opt arg_mode self_mode) end.
+Definition add_if_absent : bool := false.
+Definition byname_source : byname_src := ByEngine.
 Definition gen_cfg : cfg := mkCfg sat_plan validate_mode after_validate path_mode add_if_absent byname_source.
 
